@@ -701,6 +701,15 @@ pub fn run_c06(ctx: &Ctx) -> Report {
         } else {
             ops.push(QOp::Finish);
         }
+        // a backend that takes its time in the middle of a reply - a real pause between two cells of a
+        // row (or wherever the program allows): time-driven code in the library, if there is any, gets
+        // its occasion; the values arrive all the same. A handful of cases only (they cost real time).
+        if !ctx.miri && i < if ctx.thorough { 16 } else { 4 } {
+            let between_cells: Vec<usize> = (1..ops.len()).filter(|&k| matches!(ops[k - 1], QOp::Col(_)) && matches!(ops[k], QOp::Col(_) | QOp::Row(..) | QOp::EndRow)).collect();
+            let at = if between_cells.is_empty() { 1 + rng.usize(ops.len().max(2) - 1) } else { between_cells[rng.usize(between_cells.len())] };
+            ops.insert(at.min(ops.len()), QOp::Pause(if ctx.thorough { 1600 } else { 650 }));
+            rep.counters.inc(if between_cells.is_empty() { "replies_with_a_real_pause_of_the_backend" } else { "replies_with_a_real_pause_of_the_backend_between_two_cells_of_a_row" });
+        }
         let cmds = vec![Cmd::query(b"q"), Cmd::ping()];
         let scripts = vec![Script::Q(QProg { colsets: vec![cols, vec![], vec![simple_col("x", ColumnType::MYSQL_TYPE_LONG)]], ops, on_err: OnErr::Drop })];
         let obs = run_case(&varied_case(rng, cmds, scripts));
